@@ -14,7 +14,8 @@ def report(pid, violations, tier):
         found = None
         try:
             from . import replay_drivers
-            found = replay_drivers.find_input(pid, u, f)
+            if not u.startswith("replay:") and os.environ.get("VERIF_NO_REPLAY") != "1":
+                found = replay_drivers.find_input(pid, u, f)
         except Exception as e:  # replay is best effort, never hides the violation
             found = None
             f = dict(f, replay_error=str(e))
